@@ -347,4 +347,10 @@ def get_cfacts(ctx):
         except OSError:
             pass
         return facts
-    return ctx.memo("cfacts", compute)
+
+    def with_globals():
+        facts = compute()
+        from . import csym
+        csym.Sym.GLOBALS = frozenset(facts.globals)
+        return facts
+    return ctx.memo("cfacts", with_globals)
